@@ -77,19 +77,19 @@ CHECKS.update({
             "DESIGN.md §3 C19"),
     "C01": ("CH", "CrossHair 0.0.110 (z3): symbolic precedences / associativities for the shunting-yard engine (CH-sym, unbounded ints); symbolic indices into finite alphabets realised by explicit branching for formula streams (CH-enum: path tree exhausted = every stream within the bound), each stream parsed by the real parser and compared with an independent recursive-descent reading of grammar.md; native cross-validation; counterexamples replayed natively",
             "Bounded: tokens_to_ast == precedence climbing for ALL integer precedences on 9 operator sequences (+ parentheses); sign-run collapsing on all operator strings of <=3 (5 thorough) characters; every stream of <=3 symbols over the 19-symbol alphabet for the default parser and <=2 for each of the other 15 parser configurations (thorough: <=4 over 16 symbols, 5 over 9 symbols, <=3 for the other configurations) gives accept/reject, nested shape and ordered term lists equal to the documented algebra (documented-silent constructs counted as DONTCARE); documented identities and specification forms over all coincidence patterns of {a,b,c}.",
-            "Reference reading of grammar.md is mine (oracle/wilkinson_ref.py), validated at run time against the repository's own FORMULA_TO_TERMS expectations; DONTCARE classes listed there; formulas longer than K tokens are outside the claim.",
+            "Reference reading of grammar.md is mine (oracle/wilkinson_ref.py), validated at run time against the repository's own FORMULA_TO_TERMS expectations; DONTCARE classes listed there; formulas longer than K tokens are outside the solver-explored claim - a ground companion compares 1 500 (20 000) grammar-derived streams of up to 25 symbols and their single-symbol mutations with the same reference natively (sampling, labelled).",
             "DESIGN.md §3 C01"),
     "C14": ("CH", "CrossHair 0.0.110 (z3): tokenizer over symbolic strings of all of Unicode (CH-sym); streams / single-token edits / feature-flag subsets via symbolic indices realised by branching (CH-enum, path tree exhausted); native cross-validation; counterexamples replayed natively",
             "Bounded: tokenize(s) returns or raises FormulaSyntaxError for every string of <=2 (3) code points; Formula.from_spec over every stream of <=2 symbols of a 31-symbol error alphabet and <=3 of a 16 (20)-symbol cut, and over every single-token replace/insert/delete edit of 10 (20) well-formed seeds, ends in a formula, a FormulaParsingError, or a SyntaxError only if an embedded Python fragment is invalid; flag monotonicity over 3-token streams x 8 flag subsets.",
-            "Termination = within the per-path timeout on every explored path; strings outside the bounds are outside the claim.",
+            "Termination = within the per-path timeout on every explored path; strings outside the bounds are outside the claim. Added: 25 valid Python fragments of unusual AST shape in 9 positions x 6 flag subsets (CH-enum); ground companion: 6 000 (60 000) character-level mutations of grammar-derived formulas must get a verdict within 10 s (sampling, labelled).",
             "DESIGN.md §3 C14"),
     "C15": ("CH", "CrossHair 0.0.110 (z3): whitespace sites, quoted names / fragments and whole input strings are SYMBOLIC strings (CH-sym, all of Unicode); Python-fragment reformattings and single-character names via symbolic indices (CH-enum); native cross-validation; counterexamples replayed natively",
             "Bounded solver-checked: for ~95 (all 676 thorough) ordered token pairs of a 26-symbol alphabet any Unicode whitespace (or none, where an operator/bracket is adjacent) before / between / after yields the canonical token list, and 12 formulas with symbolic whitespace at their boundaries parse identically; back-tick names of <=2 (3) arbitrary code points and brace/call fragments of <=2 (3) code points are single verbatim tokens; every one-character name over a 101-character menu denotes its own factor; token spans of every string of <=2 (3) code points are in range, ordered, non-overlapping and delimit the token text; 10 Python fragments x reformattings denote one factor.",
-            "Whitespace runs of length <=1 per site; known findings: columns named '.' and '1' cannot be referenced.",
+            "Whitespace runs of length <=1 per site; known findings: columns named '.' and '1' cannot be referenced. Added: string literals of <=2 (3) characters over a 13-character alphabet inside call / brace-quoted fragments are the literal the factor evaluates (CH-enum); ground companion: random whitespace at the token boundaries of 3 000 (20 000) grammar-derived formulas (sampling, labelled).",
             "DESIGN.md §3 C15"),
     "C17": ("CH", "CrossHair 0.0.110 (z3): membership of names in the data / context layers as SYMBOLIC booleans through the real FormulaMaterializer.__init__/_lookup/_evaluate; '.' expansion via symbolic indices (CH-enum); necessity/sufficiency of required_variables by native enumeration over a formula menu (labelled: no solver share)",
             "Bounded: for every membership pattern of three names (one shadowing the built-in 'log') in data and context, lookups and factor evaluation return the value and source of the first of data > context > transforms, NameError otherwise, without writing to the supplied mappings; '.' expands to available - used-on-lhs in data order for 8 variable lists x 6 left-hand sides x intercept x 3 surroundings; 15 formulas (plain, quoted, nested calls, attribute access, Python expressions, multi-part): data restricted to required_variables materializes, removing any one raises FactorEvaluationError, and reported sources / required variables after materialization are where values came from.",
-            "The necessity/sufficiency leg is enumeration of concrete formulas, not solver-decided.",
+            "The necessity/sufficiency leg is enumeration of concrete formulas, not solver-decided: a 25-formula menu plus 60 (400) generated formulas whose required set is known by construction.",
             "DESIGN.md §3 C17"),
 })
 
